@@ -281,7 +281,25 @@ Collect(t) ==
      IN /\ obj' = [o \in Obj |-> IF o \in swept THEN [heap |-> obj[o].heap, kind |-> "freed", f |-> <<>>] ELSE obj[o]]
         /\ Log("collect", t, 0, 0, Cardinality(swept))
 
+(* Mutant "sweepgap": the collector of t releases a descendant u between marking it and sweeping its heap, and u   *)
+(* allocates in the gap.  The three steps (mark from the current roots; Alloc on u; sweep everything unmarked) are   *)
+(* composed into one action, which is all the invariant needs: the fresh object is rooted by u and swept.  The       *)
+(* design (Collect above) holds every descendant from mark to sweep, i.e. Collect is one atomic step for the whole  *)
+(* subtree; the conformance side of this is the parent-collects scenario of C05 / C14.                               *)
+CollectGap(t, u) ==
+  /\ Mutant = "sweepgap" /\ On("Collect") /\ On("Alloc") /\ Live(t) /\ Live(u) /\ u \in Desc(t) /\ u # t /\ nobj < MaxObj
+  /\ LET sub   == Desc(t)
+         seen  == Mark(UNION {RootsGC(x) : x \in sub}, {}, Gen(t))
+         swept == {o \in 1..nobj : Alive(o) /\ obj[o].heap \in sub /\ o \notin seen} \cup {nobj + 1}
+         new   == [heap |-> u, kind |-> "data", f |-> <<0, 0>>]
+     IN /\ nobj' = nobj + 1
+        /\ rooted' = [rooted EXCEPT ![u] = @ \cup {nobj + 1}]
+        /\ obj' = [o \in Obj |-> IF o \in swept THEN [heap |-> (IF o = nobj + 1 THEN u ELSE obj[o].heap), kind |-> "freed", f |-> <<>>] ELSE obj[o]]
+        /\ UNCHANGED <<nthr, parent, vmof, gone, stack>>
+        /\ Log("collectgap", t, u, 0, nobj + 1)
+
 Next ==
+  \/ \E t, u \in Thr : CollectGap(t, u)
   \/ \E t \in Thr : \E a, b \in 0..MaxObj : Alloc(t, a, b)
   \/ \E t \in Thr, o \in Obj : Unroot(t, o) \/ Push(t, o)
   \/ \E t \in Thr : Pop(t) \/ RootTop(t) \/ Spawn(t) \/ Collect(t) \/ ChanNew(t)
